@@ -219,6 +219,14 @@ Definition ctask_of (t : task) (rv : option N) (nodes : list wid) : ctask :=
 
 Definition core_of (s : st) : core := s_core (fst s).
 
+(** Append [x] to the list kept for key [w] (insertion order of keys), as the
+    `entry(w).or_default().push(x)` idiom does (the key order is not observable: one message per key). *)
+Fixpoint group_add {A} (w : wid) (x : A) (l : list (wid * list A)) : list (wid * list A) :=
+  match l with
+  | [] => [(w, [x])]
+  | (k, v) :: rest => if N.eqb k w then (k, v ++ [x]) :: rest else (k, v) :: group_add w x rest
+  end.
+
 (** [process_retracted]: the retracted ids are grouped per worker (one RetractTasks each). *)
 Fixpoint retract_states (c : core) (ids : list tid) (acc : list (wid * list tid)) : res (core * list (wid * list tid)) :=
   match ids with
@@ -230,12 +238,7 @@ Fixpoint retract_states (c : core) (ids : list tid) (acc : list (wid * list tid)
           do wk <- get_worker (c_workers c) w;
           do wk' <- remove_prefill_task wk id;
           let c' := upd_worker (upd_task c (with_state t (Retracting w))) wk' in
-          let fix add (l : list (wid * list tid)) :=
-              match l with
-              | [] => [(w, [id])]
-              | (k, v) :: rest => if N.eqb k w then (k, v ++ [id]) :: rest else (k, v) :: add rest
-              end in
-          retract_states c' r (add acc)
+          retract_states c' r (group_add w id acc)
       | _ => Panic 161     (* unreachable!() *)
       end
   end.
@@ -293,7 +296,14 @@ Fixpoint reset_mn_workers (c : core) (ws : list wid) (id : tid) : res core :=
       end
   end.
 
-(** [on_cancel_tasks]; fuel bounds the mutual recursion with [task_failed] (not needed here). *)
+(** `for w_id in ws { worker_map.get_worker_mut(w_id).reset_mn_task() }` *)
+Fixpoint reset_mn_all (c : core) (l : list wid) : res core :=
+  match l with
+  | [] => Ok c
+  | w :: l' => do wk <- get_worker (c_workers c) w; reset_mn_all (upd_worker c (reset_mn_task wk)) l'
+  end.
+
+(** [on_cancel_tasks] *)
 Fixpoint cancel_release (s : st) (ids : list tid) (to_unreg : list tid) (running : list (wid * list tid))
   : res (st * list tid * list (wid * list tid)) :=
   match ids with
@@ -305,12 +315,7 @@ Fixpoint cancel_release (s : st) (ids : list tid) (to_unreg : list tid) (running
       | Some t =>
           do csm <- recursive_consumers (c_tasks c) t;
           let to_unreg' := tid_insert_all csm (tid_insert id to_unreg) in
-          let add w (l : list (wid * list tid)) :=
-              (fix add (l : list (wid * list tid)) :=
-                 match l with
-                 | [] => [(w, [id])]
-                 | (k, v) :: rest => if N.eqb k w then (k, v ++ [id]) :: rest else (k, v) :: add rest
-                 end) l in
+          let add w (l : list (wid * list tid)) := group_add w id l in
           do rq <- get_rq (c_rqs c) (t_rq t);
           match t_state t with
           | Waiting _ => cancel_release (ask_scheduling s) r to_unreg' running
@@ -319,11 +324,7 @@ Fixpoint cancel_release (s : st) (ids : list tid) (to_unreg : list tid) (running
               do wk' <- remove_sn_task wk id (rq_res rq);
               cancel_release (ask_scheduling (st_core s (upd_worker c wk'))) r to_unreg' (add w running)
           | RunningMN ws =>
-              do c' <- (fix go (c : core) (l : list wid) : res core :=
-                          match l with
-                          | [] => Ok c
-                          | w :: l' => do wk <- get_worker (c_workers c) w; go (upd_worker c (reset_mn_task wk)) l'
-                          end) c ws;
+              do c' <- reset_mn_all c ws;
               match ws with
               | [] => Panic 163     (* ws[0] *)
               | w0 :: _ => cancel_release (ask_scheduling (st_core s c')) r to_unreg' (add w0 running)
@@ -353,6 +354,15 @@ Definition on_cancel_tasks (s : st) (ids : list tid) : res st :=
   do (s1, to_unreg, running) <- cancel_release s ids [] [];
   do c' <- remove_tasks_batched (core_of s1) to_unreg;
   send_all (st_core s1 c') (map (fun g => (fst g, DCancel (snd g))) running).
+
+(** The dependents of a failed task are removed; each must still be Waiting. *)
+Fixpoint remove_waiting_consumers (c : core) (l : list tid) : res core :=
+  match l with
+  | [] => Ok c
+  | x :: l' =>
+      do (c', stt) <- remove_task c x;
+      match stt with Waiting _ => remove_waiting_consumers c' l' | _ => Panic 169 end
+  end.
 
 (** [task_failed]. [w] = reporting worker (None = crash limit after a worker loss). *)
 Definition task_failed (s : st) (w : option wid) (id : tid) (k : failkind) : res st :=
@@ -394,13 +404,7 @@ Definition task_failed (s : st) (w : option wid) (id : tid) (k : failkind) : res
         | None => if is_waiting t then Ok c else Panic 168
         end;
       do csm <- recursive_consumers (c_tasks c1) t;
-      do c2 <- (fix go (c : core) (l : list tid) : res core :=
-                  match l with
-                  | [] => Ok c
-                  | x :: l' =>
-                      do (c', stt) <- remove_task c x;
-                      match stt with Waiting _ => go c' l' | _ => Panic 169 end
-                  end) c1 csm;
+      do c2 <- remove_waiting_consumers c1 csm;
       do (c3, stt) <- remove_task c2 id;
       do _ <- match w, stt with
               | Some _, (Assigned _ _ | Prefilled _ | Retracting _ | Running _ _ | RunningMN _) => Ok tt
@@ -611,12 +615,7 @@ Fixpoint retract_response_states (c : core) (w : wid) (ids : list tid) (acc : li
                 match find_redirect (c_redirects c) id with
                 | Some (target, rv) =>
                     let c' := upd_task (with_redirects c (del_redirect (c_redirects c) id)) (with_state t (Assigned target rv)) in
-                    let fix add (l : list (wid * list (tid * N))) :=
-                        match l with
-                        | [] => [(target, [(id, rv)])]
-                        | (k, v) :: rest => if N.eqb k target then (k, v ++ [(id, rv)]) :: rest else (k, v) :: add rest
-                        end in
-                    retract_response_states c' w r (add acc)
+                    retract_response_states c' w r (group_add target (id, rv) acc)
                 | None => retract_response_states (upd_task c (with_state t (Waiting 0))) w r acc
                 end
               else retract_response_states c w r acc
@@ -624,17 +623,19 @@ Fixpoint retract_response_states (c : core) (w : wid) (ids : list tid) (acc : li
           end
       end
   end.
+Fixpoint ctasks_of (c : core) (l : list (tid * N)) : res (list ctask) :=
+  match l with
+  | [] => Ok []
+  | (id, rv) :: l' => do t <- get_task (c_tasks c) id; do rest <- ctasks_of c l'; Ok (ctask_of t (Some rv) [] :: rest)
+  end.
+Fixpoint send_redirected (s : st) (gs : list (wid * list (tid * N))) : res st :=
+  match gs with
+  | [] => Ok s
+  | (target, ts) :: r =>
+      do cts <- ctasks_of (core_of s) ts;
+      do s' <- send_worker s target (DCompute cts);
+      send_redirected s' r
+  end.
 Definition on_retract_response (s : st) (w : wid) (ids : list tid) : res st :=
   let '(c', groups) := retract_response_states (core_of s) w ids [] in
-  (fix go (s : st) (gs : list (wid * list (tid * N))) : res st :=
-     match gs with
-     | [] => Ok s
-     | (target, ts) :: r =>
-         do cts <- (fix mk (l : list (tid * N)) : res (list ctask) :=
-                      match l with
-                      | [] => Ok []
-                      | (id, rv) :: l' => do t <- get_task (c_tasks (core_of s)) id; do rest <- mk l'; Ok (ctask_of t (Some rv) [] :: rest)
-                      end) ts;
-         do s' <- send_worker s target (DCompute cts);
-         go s' r
-     end) (st_core s c') groups.
+  send_redirected (st_core s c') groups.
